@@ -1185,8 +1185,13 @@ def c09_programs(backend, tier):
         "e.PRIM('A').Select(lambda a, b: a.pt()).Sum()", 
         "e.PRIM('A').Select().Count()",
         "3j", "None", "b'x'",
+        # operands of the wrong kind: a real number as an index, a sequence / an object where a number is required
+        "j.vals()[1.5]", "e.PRIM('A')[1.5].pt()", "j.vals()[j.pt()]", "sin(e.PRIM('A'))", "sqrt(j)", "abs(j.vals())", "pow(e.PRIM('A'), 2)",
+        "(j > 1)", "(j == j)", "(j if j.pt() > 1 else j)", "(e.PRIM('A').First() if j.pt() > 1 else e.PRIM('A').First())",
+        "Range(0, 2.5).Count()", "Range(0.5, 2).Count()", "Range(0, j.pt()).Count()",
     ]
     if backend == "atlas":
+        num_grafts += ["(e.EventInfo('EI') > 1)", "-e.EventInfo('EI')", "(e.EventInfo('EI') if j.pt() > 1 else e.EventInfo('EI'))"]
         num_grafts += ["j.getAttribute('x')", "j.getAttributeFloat()", "j.getAttributeFloat('a', 'b')", "getAttributeFloat(j, 'a')", "DeltaR(j.eta(), j.phi())", "j.DeltaR(1, 2, 3, 4)"]
     else:
         num_grafts += ["isNonnull()", "isNonnull(j, j)"]
@@ -1214,7 +1219,15 @@ def c09_programs(backend, tier):
         "e.PRIM('A')",                                   # bare lambda is not a call
         "Select(EventDataset('ds'), lambda e: e.PRIM('A'))",                  # raw objects
         "Select(EventDataset('ds'), lambda e: e.PRIM('A').First())",
+        "SelectMany(EventDataset('ds'), lambda e: e.PRIM('A'))",                 # raw objects, one row each
+        "Select(SelectMany(EventDataset('ds'), lambda e: e.PRIM('A')), lambda j: (j.pt(), j))",
         "Select(EventDataset('ds'), lambda e: e)",
+        # malformed metadata of the remaining kinds
+        "Select(MetaData(EventDataset('ds'), {'metadata_type': 'docker', 'imagee': 'x/y:1'}), lambda e: e.PRIM('A').Count())",
+        "Select(MetaData(MetaData(EventDataset('ds'), {'metadata_type': 'define_enum', 'namespace': 'xAOD.Jet', 'name': 'Color', 'values': ['Red', 'Blue']}), {'metadata_type': 'define_enum', 'namespace': 'xAOD.Jet', 'name': 'Color', 'values': ['Green']}), lambda e: e.PRIM('A').Count())",
+        "Select(MetaData(EventDataset('ds'), {'metadata_type': 'inject_code', 'name': 'b', 'body_includes': 'a.h'}), lambda e: e.PRIM('A').Count())",
+        "Select(MetaData(EventDataset('ds'), {'metadata_type': 'add_job_script', 'name': 'b', 'script': 'x = 1', 'depends_on': []}), lambda e: e.PRIM('A').Count())",
+        "Select(MetaData(EventDataset('ds'), {'metadata_type': 'add_method_type_info', 'type_string': 'T', 'method_name': 'm', 'return_type': 'int', 'no_such_key': 1}), lambda e: e.PRIM('A').Count())",
         "Select(EventDataset('ds'), lambda e: (e.PRIM('A').Count(), e.PRIM('A')))",
         "Select(SelectMany(EventDataset('ds'), lambda e: e.PRIM('A')), lambda j: j)",
         "Where(EventDataset('ds'), lambda e: True)",
@@ -1245,6 +1258,8 @@ def c09_programs(backend, tier):
         "Select(MetaData(MetaData(EventDataset('ds'), {'metadata_type': 'add_job_script', 'name': 'a', 'script': [], 'depends_on': ['b']}), {'metadata_type': 'add_job_script', 'name': 'b', 'script': [], 'depends_on': ['a']}), lambda e: e.PRIM('A').Count())",
         "Select(MetaData(EventDataset('ds'), {'metadata_type': 'add_job_script', 'name': 'a', 'script': [], 'depends_on': ['never_sent']}), lambda e: e.PRIM('A').Count())",
     ]
+    if backend == "atlas":
+        tops.append("Select(EventDataset('ds'), lambda e: e.EventInfo('EI'))")
     for q in tops:
         if "add_job_script" in q and backend != "atlas":
             continue      # job scripts are an ATLAS facility: the CMS executors never order them
